@@ -142,6 +142,40 @@ AccessEvents(s) ==
 
 Events(s) == IF Focus = "c04" THEN AccessEvents(s) ELSE StructEvents(s) \cup AnnotEvents(s)
 
+\* sessions: ONE live writer / reader used for several calls (curated patterns; only sessions whose cursors are
+\* determined, i.e. in which only the last step can fail, are emitted).  The patterns make the object's view of the
+\* archive go stale if it caches anything: the size changes behind the cursor, the old end becomes an inner address,
+\* a failed call is followed by nothing.
+Step(op, a, n, ge, bs, ty) == Rec(op, a, n, ge, bs, 0, ty)
+Sess(kind, start, steps) == [op |-> "session", a |-> start, n |-> 0, ge |-> FALSE, bs |-> <<>>, t |-> 0, ty |-> "", kind |-> kind, steps |-> steps]
+SessionEvents(s) ==
+  LET n  == Size(s)
+      K(a) == Step("seek", a, 0, FALSE, <<>>, "")
+      A  == Step("w_allocate_at_end", 0, 4, FALSE, <<>>, "")
+      L  == Step("s_allocate", 0, 4, FALSE, <<>>, "")
+      LG == Step("s_allocate", 0, 4, TRUE, <<>>, "")
+      Z  == Step("w_size", 0, 0, FALSE, <<>>, "")
+      V  == Step("s_write_val", 0, 4, FALSE, <<1, 2, 3, 4>>, "u")
+      V1 == Step("s_write_val", 0, 1, FALSE, <<200>>, "u")
+      WB == Step("s_write_bytes", 0, 0, FALSE, <<9, 8>>, "")
+      R  == Step("s_read_val", 0, 4, FALSE, <<>>, "u")
+      R1 == Step("s_read_val", 0, 1, FALSE, <<>>, "u")
+      B2 == Step("s_read_bytes", 0, 2, FALSE, <<>>, "")
+      S  == Step("s_read_string", 0, 0, FALSE, <<>>, "")
+      P  == Step("s_read_pointer", 0, 0, FALSE, <<>>, "")
+      Lb == Step("s_read_labels", 0, 0, FALSE, <<>>, "")
+      Sk == Step("skip", 0, 1, FALSE, <<>>, "")
+      all == IF Focus = "c04"
+             THEN { Sess("r", c, ss) : c \in {0, 1}, ss \in { <<R, R>>, <<R1, R1, R>>, <<R1, B2, R1>>, <<S, P>>, <<Lb, R, Lb>>, <<Sk, R1, Sk, R1>>,
+                                                              <<K(n), R1>>, <<R, K(0), R>> } }
+                  \cup (IF n >= 1 THEN { Sess("r", 0, <<K(n - 1), R1, R1>>) } ELSE {})
+                  \cup { Sess("w", c, ss) : c \in {0, 1}, ss \in { <<V1, V1>>, <<V, V>>, <<WB, V1, Z>>, <<V, K(0), V1>> } }
+                  \cup (IF n >= 4 THEN { Sess("w", 0, <<K(n - 4), V, V1>>) } ELSE {})
+             ELSE { Sess("w", c, ss) : c \in {0, n},
+                      ss \in { <<A, K(n), L>>, <<A, K(n), LG>>, <<A, K(0), L, Z>>, <<K(n), L, Z>>, <<K(0), L, V>>, <<K(n), L, L>>,
+                               <<K(n), L, K(n), LG, Z>>, <<V, V>>, <<A, Z, K(n), V>>, <<K(n + 4), L>>, <<A, A, K(n + 4), L>>, <<L, L>> } }
+  IN { e \in all : CursorsDetermined(s, e.a, e.steps) }
+
 \* phase 2: successful operations lead to new states
 Op ==
   /\ Ready /\ depth < MaxDepth
@@ -168,10 +202,22 @@ Laws ==
        \* a stream call is the positional call at the cursor
        /\ (ev.op = "s_read_val") => { [o EXCEPT !.pos = 0] : o \in Outcomes(st, ev) } = ReadValOutcomes(st, ev.a, ev.n)
 
+\* sessions: at least one run, every run ends in a sorted state, an error step leaves the archive as it was
+SessionLaws ==
+  \A ev \in SessionEvents(st) :
+     /\ SessionOutcomes(st, ev.a, ev.steps) # {}
+     /\ \A o \in SessionOutcomes(st, ev.a, ev.steps) : WellSorted(o.st)
+     \* a session of seeks, size observers and failing calls changes nothing
+     /\ \A r \in SessionRuns(st, ev.a, ev.steps, Len(ev.steps)) :
+          (\A k \in 1..Len(ev.steps) : ev.steps[k].op \in {"seek", "skip", "w_size"} \/ ~r.obs[k].res.ok) => r.st = st
+
 \* ------------------------------------------------------------------ generator
 Emit == (Ready /\ depth <= EmitDepth) =>
   \A ev \in Events(st) :
      PrintT("G " \o ToJson([pre |-> st, ev |-> ev, allowed |-> SetToSeq(Outcomes(st, ev))]))
+EmitSessions == (Ready /\ depth <= EmitDepth) =>
+  \A ev \in SessionEvents(st) :
+     PrintT("G " \o ToJson([pre |-> st, ev |-> ev, allowed |-> SetToSeq(SessionOutcomes(st, ev.a, ev.steps))]))
 
 View == <<st, stage, IF Quick THEN 0 ELSE depth>>
 =============================================================================
